@@ -2,10 +2,10 @@ package sym
 
 import (
 	"fmt"
-	"runtime"
 	"go/constant"
 	"go/token"
 	"go/types"
+	"runtime"
 	"sort"
 	"strings"
 	"sync"
@@ -16,37 +16,38 @@ import (
 )
 
 type Config struct {
-	Unwind       int  // max visits of one block per frame
-	MaxSteps     int  // per path
-	MaxPaths     int  // safety cap
-	MaxDelays    int  // delay bound D
-	Jobs         int
-	ExecPrefixes []string // package path prefixes executed from SSA
-	StopAtFirst  bool
-	Deadline     time.Time
-	TraceInstr   bool
+	Unwind           int // max visits of one block per frame
+	MaxSteps         int // per path
+	MaxPaths         int // safety cap
+	MaxDelays        int // delay bound D
+	Jobs             int
+	ExecPrefixes     []string // package path prefixes executed from SSA
+	StopAtFirst      bool
+	ConcreteClock    bool
+	Deadline         time.Time
+	TraceInstr       bool
 	PanicIsViolation bool
-	PollUnwind   int // max iterations of polling loops (sleep based) before path cut
+	PollUnwind       int // max iterations of polling loops (sleep based) before path cut
 }
 
 type Engine struct {
-	Prog   *ssa.Program
-	Fset   *token.FileSet
-	Cfg    Config
-	Pool   *SolverPool
+	Prog      *ssa.Program
+	Fset      *token.FileSet
+	Cfg       Config
+	Pool      *SolverPool
 	abortFlag int32
-	Pool2  *SolverPool // fallback for unknown answers (may be nil)
+	Pool2     *SolverPool   // fallback for unknown answers (may be nil)
 	SlowPools []*SolverPool // assertion-only last resort: long time limit
 	Fallbacks int64
-	Intr   map[string]Intrinsic
-	HPkgs  map[string]bool // harness package paths
-	RepoDir string
+	Intr      map[string]Intrinsic
+	HPkgs     map[string]bool // harness package paths
+	RepoDir   string
 
-	mu         sync.Mutex
-	work       []*State
-	inflight   int
-	cond       *sync.Cond
-	stateCtr   int32
+	mu       sync.Mutex
+	work     []*State
+	inflight int
+	cond     *sync.Cond
+	stateCtr int32
 
 	// results
 	Paths       int64
@@ -1274,6 +1275,16 @@ func (e *Engine) Model(sol *Solver, st *State, extra ...*Term) ([]NondetVal, boo
 		s2 := e.Pool2.Get()
 		r, vals = s2.CheckA(as, want, true)
 		e.Pool2.Put(s2)
+	}
+	if r == Unknown {
+		for _, sp := range e.SlowPools {
+			s3 := sp.Get()
+			r, vals = s3.CheckA(as, want, true)
+			sp.Put(s3)
+			if r != Unknown {
+				break
+			}
+		}
 	}
 	if r != Sat {
 		return nil, false
